@@ -219,6 +219,9 @@ pub fn after_op(
                 let dropped_undecryptable = in_last6 && pen.is_none();
                 let sub_tsd = if let HOp::Add { tsd, .. } = op { *tsd } else { 0 };
                 if let Some(row) = cur.appts.get(&key) {
+                    if row.0 == submitted && row.3 != *start && !dropped_undecryptable && !has_tracker {
+                        g.rep.fail("C08", "stored_start_block_is_not_the_receipts", &format!("the receipt for {key:?} states start_block {start}, the row stored for this very version says {}", row.3));
+                    }
                     if row.0 == submitted && row.1 != sub_tsd && !dropped_undecryptable {
                         g.rep.fail("C08", "stored_version_is_not_the_accepted_one", &format!("a receipt was returned for {key:?} with to_self_delay {sub_tsd} but the row holds to_self_delay {} (same blob): the version last accepted is not what is stored", row.1));
                     }
@@ -401,7 +404,11 @@ pub fn after_op(
                     }
                 } else if row_now.is_none() && !rehandled {
                     // dropped without completion: only a rejected re-submission explains it, and never with a refund
-                    let resent_rejected = sent_ok(p) && is_rejected(verdict(p)) || (sent_ok(tr.0) && is_rejected(verdict(tr.0)));
+                    // (the carrier's memo lives from one block connection to the next: a refusal the node gave to a submission
+                    // made since the last block — another user's late appointment with the same penalty — is answered from
+                    // the memo, without a new RPC)
+                    let asked = |t: u32| sent_ok(t) || g.mon.sent_since_block.contains(&t);
+                    let resent_rejected = asked(p) && is_rejected(verdict(p)) || (asked(tr.0) && is_rejected(verdict(tr.0)));
                     if !resent_rejected {
                         g.rep.fail("C04", "tracker_dropped_without_cause", &format!("{k:?} (status {}:{h}) vanished at block {height}", if confirmed { 'C' } else { 'M' }));
                     }
@@ -469,6 +476,12 @@ pub fn after_op(
         // C03: a restart finds what the tower held, and changes nothing
         if !same_db(&prev, &cur) {
             g.rep.fail("C03", "restart_changed_database", "stopping and starting the tower on the same data directory changed the database");
+            // C09: a user inside the grace period is still a user after a restart
+            for (u, ui) in prev.users.iter() {
+                if !cur.users.contains_key(u) && (height as u64) < ui.2 as u64 + cfg.2 as u64 {
+                    g.rep.fail("C09", "purged_early", &format!("u{u} (expiry {}, grace {}) is gone after a restart at height {height}", ui.2, cfg.2));
+                }
+            }
         }
         // the caches are rebuilt from the last blocks, the carrier's memo is gone
         g.mon.cache_deficit = 0;
